@@ -515,13 +515,21 @@ func (dd *msgpipelineDelivery) BodyNonAtomic(ctx context.Context, c module.Statu
 func (dd msgpipelineDelivery) Commit(ctx context.Context) error {
 	dd.close()
 
+	var commitErr error
 	for _, delivery := range dd.deliveries {
-		if err := delivery.Commit(ctx); err != nil {
+		if commitErr != nil {
 			// No point in Committing remaining deliveries, everything is broken already.
-			return err
+			// They still have to be closed, though.
+			if err := delivery.Abort(ctx); err != nil {
+				dd.log.Debugf("delivery.Abort failure, Delivery object = %T: %v", delivery, err)
+			}
+			continue
+		}
+		if err := delivery.Commit(ctx); err != nil {
+			commitErr = err
 		}
 	}
-	return nil
+	return commitErr
 }
 
 func (dd *msgpipelineDelivery) close() {
